@@ -618,6 +618,63 @@ def openViews (st : List Bool) : Nat := (st.filter id).length
 end ViewDepth
 
 
+/-! ## The keyword gate of `db.query` (contract/sqlcheck.c)
+
+`db.query` is allowed in view functions and has no `luaCheckView` guard: the only thing between a view function
+running inside a transaction (writable SQL connection) and `sqlite3_prepare` + `rs:next()` is
+`sqlcheck_is_readonly_sql`, which looks at the *leading keyword* of the statement.  The extractor regenerates
+which leading keywords it answers non-zero for (`Gen.HostApi.sqlReadonlyFirst`, `sqlReadonlyPragmas`); this is the
+specification side: the leading keywords of SQLite's statement grammar that can begin a statement that changes the
+database, its schema or its transaction state. -/
+namespace SqlGate
+
+/-- Leading keywords of SQLite statements that can write (data, schema, attached databases, transaction / savepoint
+state, settings).  `WITH` is one of them: `WITH … INSERT | UPDATE | DELETE | REPLACE`.  (`SELECT`, `VALUES`,
+`EXPLAIN` are the ones that cannot.) -/
+def writeCapable : List String :=
+  ["ALTER", "ANALYZE", "ATTACH", "BEGIN", "COMMIT", "CREATE", "DELETE", "DETACH", "DROP", "END", "INSERT", "PRAGMA",
+   "REINDEX", "RELEASE", "REPLACE", "ROLLBACK", "SAVEPOINT", "UPDATE", "VACUUM", "WITH"]
+
+/-- SQLite pragmas that set something or have a side effect (every pragma of the documentation that is not a pure
+query of the schema). -/
+def settablePragmas : List String :=
+  ["ANALYSIS_LIMIT", "APPLICATION_ID", "AUTO_VACUUM", "AUTOMATIC_INDEX", "BUSY_TIMEOUT", "CACHE_SIZE", "CACHE_SPILL",
+   "CASE_SENSITIVE_LIKE", "CELL_SIZE_CHECK", "CHECKPOINT_FULLFSYNC", "COUNT_CHANGES", "DATA_STORE_DIRECTORY",
+   "DEFAULT_CACHE_SIZE", "DEFER_FOREIGN_KEYS", "EMPTY_RESULT_CALLBACKS", "ENCODING", "FOREIGN_KEYS", "FULL_COLUMN_NAMES",
+   "FULLFSYNC", "HARD_HEAP_LIMIT", "IGNORE_CHECK_CONSTRAINTS", "INCREMENTAL_VACUUM", "JOURNAL_MODE", "JOURNAL_SIZE_LIMIT",
+   "LEGACY_ALTER_TABLE", "LEGACY_FILE_FORMAT", "LOCKING_MODE", "MAX_PAGE_COUNT", "MMAP_SIZE", "OPTIMIZE", "PAGE_SIZE",
+   "PARSER_TRACE", "QUERY_ONLY", "READ_UNCOMMITTED", "RECURSIVE_TRIGGERS", "REVERSE_UNORDERED_SELECTS", "SCHEMA_VERSION",
+   "SECURE_DELETE", "SHORT_COLUMN_NAMES", "SHRINK_MEMORY", "SOFT_HEAP_LIMIT", "SYNCHRONOUS", "TEMP_STORE",
+   "TEMP_STORE_DIRECTORY", "THREADS", "TRUSTED_SCHEMA", "USER_VERSION", "VDBE_ADDOPTRACE", "VDBE_DEBUG", "VDBE_LISTING",
+   "VDBE_TRACE", "WAL_AUTOCHECKPOINT", "WAL_CHECKPOINT", "WRITABLE_SCHEMA",
+   -- litetree
+   "BRANCH", "BRANCH_TRUNCATE", "BRANCH_LOG", "NEW_BRANCH", "DEL_BRANCH", "RENAME_BRANCH", "BRANCH_MERGE"]
+
+/-- Does the rule `(keyword, prefix|exact|…)` let the (upper-cased) keyword `kw` through?  `strncmp(keyword, K, |K|) == 0`
+is a prefix test; a rule of a shape the extractor does not recognise lets everything through. -/
+def admits (rule : String × String) (kw : String) : Bool :=
+  if rule.2 == "prefix" then rule.1.toList.isPrefixOf kw.toList
+  else if rule.2 == "exact" then rule.1 == kw
+  else true
+
+/-- The gate answers "read-only" for a statement whose leading keyword is `kw` (pragmas are decided by the second
+keyword: `pragmaOK`). -/
+def classifiesReadonly (rules : List (String × String)) (kw : String) : Bool :=
+  rules.any fun r => r.2 != "pragma" && admits r kw
+
+/-- No write-capable leading keyword other than `PRAGMA` is classified read-only, and `PRAGMA` only through the
+pragma table. -/
+def firstOK (rules : List (String × String)) : Bool :=
+  (writeCapable.filter (· != "PRAGMA")).all (fun w => !classifiesReadonly rules w) &&
+  rules.all (fun r => r.2 != "pragma" || r.1 == "PRAGMA") &&
+  !classifiesReadonly rules "PRAGMA"
+
+/-- No settable pragma is admitted. -/
+def pragmasOK (rules : List (String × String)) : Bool :=
+  settablePragmas.all fun w => rules.all fun r => !admits r w
+
+end SqlGate
+
 /-! ## Recovery points, abstractly (`restore`-class sinks)
 
 `createRecoveryPoint` records the current state, `clearRecoveryPoint(start, isError = true)` /
